@@ -129,7 +129,13 @@ var universe = [][]vk.KV{
 
 const maxAdds = 1000 // ids live in the low 10 bits of a value
 
-func gen(t *rapid.T) Case {
+var (
+	burst = []int{0, 0, 0, 0, 0, 1}
+	mixed = []int{0, 0, 0, 1, 1, 2, 2, 3, 4}
+)
+
+// genWorld draws instruments, the attribute-set pool and the readers.
+func genWorld(t *rapid.T) Case {
 	c := Case{}
 	ni := rapid.IntRange(1, 4).Draw(t, "insts")
 	for i := 0; i < ni; i++ {
@@ -154,39 +160,65 @@ func gen(t *rapid.T) Case {
 		}
 		c.Readers = append(c.Readers, rd)
 	}
+	return c
+}
 
-	next := 0 // id of the next add
-	genAdd := func(pert []int) Op {
-		op := Op{K: "add", P: rapid.SampledFrom(pert).Draw(t, "p")}
-		op.I = rapid.IntRange(0, ni-1).Draw(t, "i")
-		op.S = rapid.IntRange(0, ns-1).Draw(t, "s")
-		op.A = rapid.IntRange(0, 3).Draw(t, "with_attributes") == 0
-		id := int64(next%1023) + 1
-		next++
-		switch k := rapid.IntRange(0, 15).Draw(t, "vkind"); {
-		case k == 0:
-			op.V = 0 // creates the stream without changing the sum
-		case k < 8:
-			op.V = id
-		default:
-			op.V = int64(1)<<uint(rapid.IntRange(10, 40).Draw(t, "pow")) + id
-		}
-		if strings.HasSuffix(c.Insts[op.I].Kind, "u") && rapid.IntRange(0, 2).Draw(t, "neg") == 0 {
-			op.V = -op.V
-		}
-		return op
+// addGen draws Adds with pairwise distinct values: the id of the add lives
+// in the low 10 bits, a generated power of two (or nothing) above them.
+type addGen struct {
+	c    *Case
+	next int
+}
+
+func (g *addGen) draw(t *rapid.T, pert []int) Op {
+	op := Op{K: "add", P: rapid.SampledFrom(pert).Draw(t, "p")}
+	op.I = rapid.IntRange(0, len(g.c.Insts)-1).Draw(t, "i")
+	op.S = rapid.IntRange(0, len(g.c.Sets)-1).Draw(t, "s")
+	op.A = rapid.IntRange(0, 3).Draw(t, "with_attributes") == 0
+	id := int64(g.next%1023) + 1
+	g.next++
+	switch k := rapid.IntRange(0, 15).Draw(t, "vkind"); {
+	case k == 0:
+		op.V = 0 // creates the stream without changing the sum
+	case k < 8:
+		op.V = id
+	default:
+		op.V = int64(1)<<uint(rapid.IntRange(10, 40).Draw(t, "pow")) + id
 	}
-	burst := []int{0, 0, 0, 0, 0, 1}
-	mixed := []int{0, 0, 0, 1, 1, 2, 2, 3, 4}
+	if !isCounter(g.c.Insts[op.I]) && rapid.IntRange(0, 2).Draw(t, "neg") == 0 {
+		op.V = -op.V
+	}
+	return op
+}
 
+func genCollectorOp(t *rapid.T, nr int, pert []int, sleeps bool) Op {
+	op := Op{P: rapid.SampledFrom(pert).Draw(t, "p")}
+	switch k := rapid.IntRange(0, 9).Draw(t, "ckind"); {
+	case k < 6 || (k >= 8 && !sleeps):
+		op.K = "collect"
+		op.R = rapid.IntRange(0, nr-1).Draw(t, "r")
+		op.F = rapid.IntRange(0, 2).Draw(t, "fresh") == 0
+	case k < 8:
+		op.K = "flush"
+	default:
+		op.K = "sleep"
+		op.D = rapid.IntRange(0, 3).Draw(t, "d")
+	}
+	return op
+}
+
+func gen(t *rapid.T) Case {
+	c := genWorld(t)
+	ag := &addGen{c: &c}
+	nr := len(c.Readers)
 	nphases := rapid.IntRange(1, 4).Draw(t, "phases")
 	for p := 0; p < nphases; p++ {
 		var phase [][]Op
 		nrec := rapid.OneOf(rapid.IntRange(1, 3), rapid.IntRange(1, 8)).Draw(t, "recorders")
 		for g := 0; g < nrec; g++ {
 			n := rapid.OneOf(rapid.IntRange(0, 12), rapid.IntRange(0, 60), rapid.IntRange(60, 200)).Draw(t, "adds")
-			if n > maxAdds-next {
-				n = maxAdds - next
+			if n > maxAdds-ag.next {
+				n = maxAdds - ag.next
 			}
 			pert := mixed
 			if rapid.Bool().Draw(t, "burst") {
@@ -194,7 +226,7 @@ func gen(t *rapid.T) Case {
 			}
 			ops := []Op{}
 			for i := 0; i < n; i++ {
-				ops = append(ops, genAdd(pert))
+				ops = append(ops, ag.draw(t, pert))
 			}
 			phase = append(phase, ops)
 		}
@@ -203,37 +235,50 @@ func gen(t *rapid.T) Case {
 			n := rapid.IntRange(1, 14).Draw(t, "cops")
 			ops := []Op{}
 			for i := 0; i < n; i++ {
-				op := Op{P: rapid.SampledFrom(mixed).Draw(t, "p")}
-				switch k := rapid.IntRange(0, 9).Draw(t, "ckind"); {
-				case k < 6:
-					op.K = "collect"
-					op.R = rapid.IntRange(0, nr-1).Draw(t, "r")
-					op.F = rapid.IntRange(0, 2).Draw(t, "fresh") == 0
-				case k < 8:
-					op.K = "flush"
-				default:
-					op.K = "sleep"
-					op.D = rapid.IntRange(0, 3).Draw(t, "d")
-				}
-				ops = append(ops, op)
+				ops = append(ops, genCollectorOp(t, nr, mixed, true))
 			}
 			phase = append(phase, ops)
 		}
 		c.Phases = append(c.Phases, phase)
 	}
-	if rapid.Bool().Draw(t, "late_conc") && next < maxAdds-8 {
+	if rapid.Bool().Draw(t, "late_conc") && ag.next < maxAdds-8 {
 		n := rapid.IntRange(1, 4).Draw(t, "n_late_conc")
 		for i := 0; i < n; i++ {
-			c.LateConc = append(c.LateConc, genAdd(mixed))
+			c.LateConc = append(c.LateConc, ag.draw(t, mixed))
 		}
 	}
-	if next < maxAdds-4 {
+	if ag.next < maxAdds-4 {
 		n := rapid.IntRange(0, 3).Draw(t, "n_late")
 		for i := 0; i < n; i++ {
-			c.Late = append(c.Late, genAdd(burst))
+			c.Late = append(c.Late, ag.draw(t, burst))
 		}
 	}
 	c.Runs = 2
+	return c
+}
+
+// genSeq draws a program with a single goroutine: every bracket of the
+// oracle collapses to equality with the model (only interval exports of
+// periodic readers still run beside it).
+func genSeq(t *rapid.T) Case {
+	c := genWorld(t)
+	ag := &addGen{c: &c}
+	n := rapid.OneOf(rapid.IntRange(1, 20), rapid.IntRange(1, 80)).Draw(t, "ops")
+	ops := []Op{}
+	none := []int{0}
+	for i := 0; i < n; i++ {
+		if rapid.IntRange(0, 9).Draw(t, "what") < 6 {
+			ops = append(ops, ag.draw(t, none))
+		} else {
+			ops = append(ops, genCollectorOp(t, len(c.Readers), none, rapid.IntRange(0, 9).Draw(t, "sleeps") == 0))
+		}
+	}
+	c.Phases = [][][]Op{{ops}}
+	nl := rapid.IntRange(0, 2).Draw(t, "n_late")
+	for i := 0; i < nl; i++ {
+		c.Late = append(c.Late, ag.draw(t, none))
+	}
+	c.Runs = 1
 	return c
 }
 
@@ -243,9 +288,9 @@ func gen(t *rapid.T) Case {
 func isCounter(in Inst) bool { return !strings.HasSuffix(in.Kind, "u") }
 func isFloat(in Inst) bool   { return strings.HasPrefix(in.Kind, "f") }
 
-func instName(i int) string   { return fmt.Sprintf("inst%d", i) }
-func scopeName(s int) string  { return fmt.Sprintf("c02.scope%d", s&1) }
-func idx(i, n int) int        { return ((i % n) + n) % n }
+func instName(i int) string  { return fmt.Sprintf("inst%d", i) }
+func scopeName(s int) string { return fmt.Sprintf("c02.scope%d", s&1) }
+func idx(i, n int) int       { return ((i % n) + n) % n }
 func sleepFor(d int) time.Duration {
 	switch d {
 	case 1:
@@ -521,6 +566,16 @@ func bounds(as []*addRec, tMust, tMay int64) bound {
 
 const never = int64(1) << 62
 
+func hint(in Inst, below bool) string {
+	switch {
+	case !isCounter(in):
+		return "a measurement was lost or counted more than once"
+	case below:
+		return "a measurement was lost"
+	}
+	return "a measurement was counted more than once"
+}
+
 // ---------------------------------------------------------------------
 
 func runOnce(c Case) ([]vk.Violation, map[string]bool) {
@@ -652,20 +707,20 @@ func runOnce(c Case) ([]vk.Violation, map[string]bool) {
 		a.done = true
 	}
 	var collectErrs atomic.Int32
-	doCollect := func(ri int, rm *metricdata.ResourceMetrics) error {
+	doCollect := func(ri int, rm *metricdata.ResourceMetrics) *consumer {
 		start := clock.Tick()
 		err := colls[ri].Collect(ctx, rm)
 		end := clock.Tick()
 		if err != nil {
 			collectErrs.Add(1)
-			return err
+			return nil
 		}
 		pts, probs := w.extract(rm, ri)
 		co := &consumer{reader: ri, start: start, end: end, pts: pts, probs: probs}
 		w.mu.Lock()
 		w.cons = append(w.cons, co)
 		w.mu.Unlock()
-		return nil
+		return co
 	}
 	var cmu sync.Mutex
 	var calls []*callRec
@@ -713,11 +768,7 @@ func runOnce(c Case) ([]vk.Violation, map[string]bool) {
 	finalCollect := make([]*consumer, len(c.Readers))
 	for ri, rd := range c.Readers {
 		if rd.Kind != "periodic" {
-			if doCollect(ri, &metricdata.ResourceMetrics{}) == nil {
-				w.mu.Lock()
-				finalCollect[ri] = w.cons[len(w.cons)-1]
-				w.mu.Unlock()
-			}
+			finalCollect[ri] = doCollect(ri, &metricdata.ResourceMetrics{})
 		}
 	}
 	var shutdown *callRec
@@ -740,12 +791,12 @@ func runOnce(c Case) ([]vk.Violation, map[string]bool) {
 	}
 	lateCollected := 0
 	for ri := range c.Readers {
-		if doCollect(ri, &metricdata.ResourceMetrics{}) == nil {
+		if doCollect(ri, &metricdata.ResourceMetrics{}) != nil {
 			lateCollected++
 		}
 	}
-	mp.ForceFlush(ctx)  //nolint:errcheck // only: does not panic
-	_ = mp.Shutdown(ctx) // second Shutdown: only: does not panic
+	_ = mp.ForceFlush(ctx) // only: does not panic
+	_ = mp.Shutdown(ctx)   // second Shutdown: only: does not panic
 
 	// ---- oracle ----
 	w.mu.Lock()
@@ -883,9 +934,9 @@ func runOnce(c Case) ([]vk.Violation, map[string]bool) {
 					case b.mustCnt > 0 && !seen:
 						bad("stream_not_reported", "reader %d (delta): %v was never reported up to %s although %d Adds on it had returned before", ri, s, what, b.mustCnt)
 					case sum < b.lo:
-						bad(kind, "reader %d (delta) %v: everything reported up to %s adds up to %d units, the Adds that had returned before it was issued sum to %d (allowed [%d, %d]): measurement lost", ri, s, what, sum, b.lo, b.lo, b.hi)
+						bad(kind, "reader %d (delta) %v: everything reported up to %s adds up to %d units; the %d Adds that had returned before it was issued and the %d further Adds issued so far allow [%d, %d]: %s", ri, s, what, sum, b.mustCnt, b.mayCnt, b.lo, b.hi, hint(in, true))
 					case sum > b.hi:
-						bad(kind, "reader %d (delta) %v: everything reported up to %s adds up to %d units, the Adds issued so far allow [%d, %d]: measurement counted more than once", ri, s, what, sum, b.lo, b.hi)
+						bad(kind, "reader %d (delta) %v: everything reported up to %s adds up to %d units; the %d Adds that had returned before it was issued and the %d further Adds issued so far allow [%d, %d]: %s", ri, s, what, sum, b.mustCnt, b.mayCnt, b.lo, b.hi, hint(in, false))
 					default:
 						return true
 					}
@@ -980,7 +1031,7 @@ func runOnce(c Case) ([]vk.Violation, map[string]bool) {
 						}
 					}
 				}
-			ordered:
+			mono:
 				for _, a := range rc {
 					for _, b := range rc {
 						if b.export || a.end >= b.start {
@@ -990,7 +1041,7 @@ func runOnce(c Case) ([]vk.Violation, map[string]bool) {
 						q, qok := val(b)
 						if pok && (!qok || q < p) {
 							bad("cumulative_decreased", "reader %d %v: %s reports %d units, the later %s reports %d (present=%v)", ri, s, a.label(), p, b.label(), q, qok)
-							break ordered
+							break mono
 						}
 					}
 				}
@@ -1056,6 +1107,7 @@ func runOnce(c Case) ([]vk.Violation, map[string]bool) {
 	}
 	if len(errs.Errors()) > 0 {
 		classes["otel_error_handler_called"] = true
+		classes["DEBUGERR:"+errs.Errors()[0].Error()] = true
 	}
 	for _, e := range exps {
 		if e != nil && e.overlap.Load() > 0 {
@@ -1171,6 +1223,48 @@ func run(c Case) ([]vk.Violation, vk.Info) {
 	info.ClassIf(len(c.LateConc) > 0, "adds_concurrent_with_shutdown")
 	info.ClassIf(len(c.Late) > 0, "adds_after_shutdown")
 	return vs, info
+}
+
+// runSeq: same execution and oracle; non-trivial when the single goroutine
+// records between two collection points.
+func runSeq(c Case) ([]vk.Violation, vk.Info) {
+	vs, info := run(c)
+	between, state := false, 0 // 0 nothing, 1 collection seen, 2 add after a collection
+	adds := 0
+	for _, ph := range c.Phases {
+		for _, ops := range ph {
+			for _, op := range ops {
+				switch op.K {
+				case "add":
+					adds++
+					if state == 1 {
+						state = 2
+					}
+				case "collect", "flush":
+					if state == 2 {
+						between = true
+					}
+					state = 1
+				}
+			}
+		}
+	}
+	if state == 2 {
+		between = true // the closing collection / Shutdown follows
+	}
+	info.NonTrivial = between && adds >= 2
+	info.ClassIf(between, "adds_between_two_collections")
+	return vs, info
+}
+
+func TestSequentialModel(t *testing.T) {
+	vk.Run(t, vk.Spec[Case]{
+		Property: "C02", Check: "sequential_model",
+		Rule: "the same instruments / attribute-set pool / readers as sum_conservation, but one goroutine issuing 1-80 Adds, Collects (any reader, reused or fresh ResourceMetrics), ForceFlushes and rare sleeps in sequence, final Collect, Shutdown, late calls: every bracket collapses to equality with the model at every collection point (interval exports of periodic readers still run beside it); " +
+			"non-trivial = >= 2 Adds and at least one Add between two collection points; distinct = distinct case encodings",
+		Quick: 1500, Thorough: 20000,
+		Gen: genSeq, Run: runSeq, Repeat: 20,
+	})
 }
 
 func TestSumConservation(t *testing.T) {
